@@ -66,8 +66,10 @@ Proof. exact session_stream_v2_refused. Qed.
 Print Assumptions C05_stream_v2_refused.
 
 (* Every successfully finalized file is well-formed and carries exactly the given roots and the stored
-   blocks: the index resolves exactly those sections.  Hypotheses: keys are CIDs as go-cid produces them,
-   sections LdWrite can frame, MaxIndexCidSize within the index's 32 MiB record-width cap (default 2 KiB),
+   blocks: the index resolves exactly those sections.  Hypotheses: the roots are CIDs as go-cid produces them
+   (for block keys this is not a hypothesis: the stores parse every key and what go-cid parses is canonical,
+   proofs/FinalCid.v), sections LdWrite can frame, MaxIndexCidSize within the index's 32 MiB record-width cap
+   (default 2 KiB),
    sizes within Go's int64 file offsets, fewer than 2^31 distinct hash codes for the multihash codec. *)
 Theorem C05_wf :
   forall (k : skind) (o : wopts) (nilroots : bool) (roots : list bytes) (h : list batch) s outs,
@@ -77,7 +79,7 @@ Theorem C05_wf :
   51 + w_dpad o + w_ipad o < two64 -> w_ipad o < two63 ->
   w_maxcid o + 8 <= max_width ->
   roots_ok roots ->
-  Forall (Forall (fun b : block => cid_bytes_ok (fst b) /\ blen (fst b) + blen (snd b) < 2 ^ 56)) h ->
+  Forall (Forall (fun b : block => blen (fst b) + blen (snd b) < 2 ^ 56)) h ->
   blen (ws_file s) < two63 ->
   (w_v1 o = false -> w_codec o = codec_mh_sorted ->
    N.of_nat (length (group_by r_code (ii_load (records_from (ld_size (blen (enc_header ro 1))) stored) []))) < two31) ->
@@ -95,7 +97,7 @@ Theorem C05_inspect_accepts :
   session k o nilroots roots h = Ok (s, outs, ONil) ->
   51 + w_dpad o + w_ipad o < two64 -> w_ipad o < two63 ->
   w_maxcid o + 8 <= max_width ->
-  Forall (Forall (fun b : block => cid_bytes_ok (fst b) /\ blen (fst b) + blen (snd b) < 2 ^ 56)) h ->
+  Forall (Forall (fun b : block => blen (fst b) + blen (snd b) < 2 ^ 56)) h ->
   blen (ws_file s) < two63 ->
   hdrdec pragma_body = Some ([], 2) -> hdrdec (enc_header ro 1) = Some (roots, 1) ->
   blen (enc_header ro 1) <= o_maxh r ->
@@ -114,7 +116,7 @@ Theorem C05_verify_accepts_partial :
   session k o nilroots roots h = Ok (s, outs, ONil) ->
   51 + w_dpad o + w_ipad o < two64 -> w_ipad o < two63 ->
   w_maxcid o + 8 <= max_width ->
-  Forall (Forall (fun b : block => cid_bytes_ok (fst b) /\ blen (fst b) + blen (snd b) < 2 ^ 56)) h ->
+  Forall (Forall (fun b : block => blen (fst b) + blen (snd b) < 2 ^ 56)) h ->
   blen (ws_file s) < two63 ->
   (w_v1 o = false -> w_codec o = codec_mh_sorted ->
    N.of_nat (length (group_by r_code (ii_load (records_from (ld_size (blen (enc_header ro 1))) stored) []))) < two31) ->
@@ -136,7 +138,7 @@ Theorem C05_verify_accepts_refuted :
   exists (k : skind) (o : wopts) (nilroots : bool) (roots : list bytes) (h : list batch) s outs,
     session k o nilroots roots h = Ok (s, outs, ONil) /\
     51 + w_dpad o + w_ipad o < two64 /\ w_ipad o < two63 /\ w_maxcid o + 8 <= max_width /\
-    Forall (Forall (fun b : block => cid_bytes_ok (fst b) /\ blen (fst b) + blen (snd b) < 2 ^ 56)) h /\
+    Forall (Forall (fun b : block => blen (fst b) + blen (snd b) < 2 ^ 56)) h /\
     blen (ws_file s) < two63 /\
     dec_header_canon pragma_body = Some ([], 2) /\
     dec_header_canon (enc_header (roots_opt nilroots roots) 1) = Some (roots, 1) /\
